@@ -42,6 +42,11 @@ func (t *Trie) Insert(word string) {
 			if char > t.max {
 				t.max = char
 			}
+		default:
+			if i == l-1 {
+				// The word ends on an existing inner node (it is a prefix of a longer word): mark it valid.
+				t.children[char].valid = true
+			}
 		}
 		t = t.children[char]
 	}
